@@ -1729,6 +1729,8 @@ class Interval(Node):
 
         if self.largest == "MICROSECOND":
             expr = getattr(self, "microseconds")
+            if self.is_negative:
+                expr = "-" + str(expr)
             unit = "MICROSECOND"
 
         elif hasattr(self, "quarters"):
